@@ -205,7 +205,7 @@ func checkC05(c *Ctx) {
 		rootWriters := predStatic(l.Func("", "*nodeDB.SaveRoot"), l.Func("", "*nodeDB.SaveEmptyRoot"), snn)
 		fLegacy := l.Field("", "Node", "isLegacy")
 		legacyOnly := func(in ssa.Instruction) bool {
-			for _, b := range sv.Blocks {
+			for _, b := range in.Parent().Blocks {
 				iff := ifOf(b)
 				if iff != nil && isLoadOfField(fLegacy)(stripTrivial(iff.Cond)) && edgeDominates(b, 0, in.Block()) {
 					return true
@@ -213,17 +213,43 @@ func checkC05(c *Ctx) {
 			}
 			return false
 		}
-		n := 0
-		for _, w := range callsIn(sv, rootWriters) {
-			n++
-			later := reachableAfter(w, func(in ssa.Instruction) bool {
-				return callCommon(in) != nil && mut.Instr(in) && !ca.isCommit(in) && !legacyOnly(in)
-			}, ca.isCommit)
-			msg := ""
-			if len(later) > 0 {
-				msg = "after the root marker was queued, " + l.calleeName(later[0]) + " at " + l.ipos(later[0]) + " queues more writes before Commit: a flush in between publishes a version whose data is incomplete"
+		// helper methods of the tree that SaveVersion delegates a root write to (one level): the call of the helper is
+		// a root writer of SaveVersion, and the helper's own body is held to the same rule
+		helperRW := map[*ssa.Function]bool{}
+		for _, in := range callsIn(sv, func(cc *ssa.CallCommon) bool {
+			g := staticCallee(cc)
+			return g != nil && g != snn && l.inModule(g) && g.Signature.Recv() != nil && len(g.Blocks) > 0 && len(callsIn(g, rootWriters)) > 0 && derefNamed(g.Signature.Recv().Type()) == derefNamed(sv.Signature.Recv().Type())
+		}) {
+			helperRW[staticCallee(callCommon(in))] = true
+		}
+		isRW := func(cc *ssa.CallCommon) bool {
+			if rootWriters(cc) {
+				return true
 			}
-			c.decide("ORDER-root-last", "SaveVersion nothing queued after "+l.calleeName(w), l.ipos(w), len(later) == 0, "root writer is the last batch mutation before Commit (legacy-format re-save excepted: legacy-only path, outside this property's histories)", msg)
+			g := staticCallee(cc)
+			return g != nil && helperRW[g]
+		}
+		n := 0
+		scope := []*ssa.Function{sv}
+		for g := range helperRW {
+			scope = append(scope, g)
+		}
+		for _, fn := range scope {
+			pred := rootWriters
+			if fn == sv {
+				pred = isRW
+			}
+			for _, w := range callsIn(fn, pred) {
+				n++
+				later := reachableAfter(w, func(in ssa.Instruction) bool {
+					return callCommon(in) != nil && mut.Instr(in) && !ca.isCommit(in) && !legacyOnly(in)
+				}, ca.isCommit)
+				msg := ""
+				if len(later) > 0 {
+					msg = "after the root marker was queued, " + l.calleeName(later[0]) + " at " + l.ipos(later[0]) + " queues more writes before Commit: a flush in between publishes a version whose data is incomplete"
+				}
+				c.decide("ORDER-root-last", fn.Name()+" nothing queued after "+l.calleeName(w), l.ipos(w), len(later) == 0, "root writer is the last batch mutation before Commit (legacy-format re-save excepted: legacy-only path, outside this property's histories)", msg)
+			}
 		}
 		if n < 3 {
 			c.anchorMissing("ORDER-root-last", "fewer than 3 root writers in SaveVersion")
